@@ -205,7 +205,7 @@ pub fn generate(seed: u64, prop: &str, thorough: bool) -> Plan {
             }),
             6 => Step::H(HOp::CasGet { which: rng.weighted(&[70, 15, 15]), idx: rng.below(16) }),
             7 => Step::H(HOp::Import {
-                kind: rng.weighted(&[50, 15, 12, 8, 15]),
+                kind: rng.weighted(&[44, 12, 12, 8, 12, 12]),
                 topic: topic(&mut rng),
                 ctx: gen_ctx(&mut rng),
                 ttl: rng.below(9),
@@ -972,7 +972,29 @@ impl Exec4 {
                         let (h, b) = &self.cas_known[idx % self.cas_known.len()];
                         (format!("/cas/{}", h), Some(b.clone()))
                     }
-                    2 => ("/cas/sha256-@@@not-base64@@@".to_string(), None),
+                    2 => {
+                        // malformed digests: foreign characters, right alphabet but undecodable
+                        // (length, padding), truncated real hash, empty digest, unknown algorithm
+                        let truncated = self
+                            .cas_known
+                            .first()
+                            .map(|(h, _)| { let h = h.to_string(); h[..h.len().saturating_sub(3)].to_string() })
+                            .unwrap_or_else(|| "sha256-47DEQpj8HBSa+/TImW+5JCeuQeRkm5NMpJWZG3hSuF".to_string());
+                        let pool = [
+                            "sha256-@@@not-base64@@@".to_string(),
+                            "sha256-abc".to_string(),
+                            "sha256-ab=c".to_string(),
+                            "sha256-a".to_string(),
+                            truncated,
+                            "sha256-".to_string(),
+                            "sha256-====".to_string(),
+                            "sha256-AAAA".to_string(),
+                            "md5-abc".to_string(),
+                            "nothash".to_string(),
+                        ];
+                        self.ex.w.probe(&format!("cas:malformed-{}", idx % pool.len()));
+                        (format!("/cas/{}", pool[idx % pool.len()]), None)
+                    }
                     _ => (format!("/cas/{}", ssri::Integrity::from(format!("never-written-{}", idx).as_bytes())), None),
                 };
                 let malformed = *which == 2;
@@ -988,7 +1010,9 @@ impl Exec4 {
                         }
                         None => {
                             if malformed {
-                                self.expect_status(&what, &r, &[400], "http/status")?;
+                                if !(400..500).contains(&r.status) {
+                                    return violation("http/status", format!("{}: status {} for GET {} (a malformed digest is a client error)", what, r.status, target));
+                                }
                             } else if r.status < 400 {
                                 return violation("http/status", format!("{}: status {} for content that was never written", what, r.status));
                             }
@@ -1021,6 +1045,17 @@ impl Exec4 {
                         let known: Vec<&crate::model::MFrame> = self.ex.model.frames.values().collect();
                         if let Some(m) = known.get((*salt as usize) % known.len().max(1)) {
                             frame = m.frame.clone();
+                        }
+                        body = serde_json::to_vec(&frame).unwrap();
+                    }
+                    5 => {
+                        // re-import of an existing id with a different meta: the import replaces
+                        // the stored record, as Store::insert_frame does
+                        let known: Vec<&crate::model::MFrame> = self.ex.model.frames.values().filter(|m| !m.removed && m.frame.topic != "xs.context").collect();
+                        if let Some(m) = known.get((*salt as usize) % known.len().max(1)) {
+                            frame = m.frame.clone();
+                            frame.meta = Some(serde_json::json!({"imported": true, "rev": salt % 1000}));
+                            self.ex.w.probe("import:replaced-existing");
                         }
                         body = serde_json::to_vec(&frame).unwrap();
                     }
